@@ -3,7 +3,7 @@
 From Coq Require Import List Arith ZArith QArith Qcanon Reals.
 From BZ Require Import Base.Ops Base.QcInst Model.Curve Model.CurvePy Gen.PyCurveHelpers
   Theory.CurveEval Theory.CurveSubdiv Theory.CurveTables Base.RInst Theory.Rounding Theory.SubdivRound Theory.Binary64
-  Gen.F90Const Theory.Twins.
+  Gen.F90Const Theory.Twins Gen.F90Closed Theory.TwinsClosed.
 Import ListNotations.
 
 (* specialize_curve returns the control points of sigma -> B(a + (b-a) sigma):
@@ -114,3 +114,12 @@ Theorem C04_compiled_closed_forms_are_the_python_tables :
   /\ map fst f90_curve_subdivide_closed_forms = map fst subdivide_dispatch.
 Proof. exact compiled_subdivision_closed_forms_are_the_python_tables. Qed.
 Print Assumptions C04_compiled_closed_forms_are_the_python_tables.
+
+(* the closed forms of the compiled specialize_curve (2 nodes inline, 3 nodes specialize_curve_quadratic), translated from the Fortran
+   text into the generic arithmetic record, ARE the model of specialize_curve, for every start / end and every net, in any commutative ring *)
+Theorem C04_compiled_specialize_closed_forms :
+  forall (T : Type) (K : Ops T), ring_of K ->
+  (forall a b v1 v2, f90_specialize_curve_linear K a b v1 v2 = specialize K [v1; v2] a b) /\
+  (forall a b v1 v2 v3, f90_specialize_curve_quadratic K a b v1 v2 v3 = specialize K [v1; v2; v3] a b).
+Proof. exact (fun T K RT => conj (f90_specialize_linear_is_specialize K RT) (f90_specialize_quadratic_is_specialize K RT)). Qed.
+Print Assumptions C04_compiled_specialize_closed_forms.
